@@ -94,3 +94,13 @@ def register(claim):
           NOTE_COMMON + " Equality of arbitrary decoded values with the encoded ones is value-level behaviour and not decided; the parser-stack rule is "
           "phrased over this decoder's block structure (a restructured parser needs the rule re-confirmed: reported as ANALYSIS-ERROR where anchors vanish).",
           "DESIGN.md#c01")
+
+    claim("C04", "finite abstract interpretation (E9) of the session dispatcher over (state, role, message class, MsgSeqNum order, integrity) with on-demand refinement; CFG dominance and who-writes rules",
+          "Static, per message from every abstract pre-state: on_message is reachable only with the inbound number equal to the expected one and before "
+          "any counter write (and is reachable for it); every next_num_in write on the inbound path is MsgSeqNum+1 at the expected number or the NewSeqNo "
+          "of a SequenceReset (GapFill only at the expected number); nobody else writes the counter; the only ResendRequest site is dominated by "
+          "number > expected and state != RESENDREQ_AWAITING, starts at the expected number and leaves RESENDREQ_AWAITING, which is left only at the "
+          "watermark test or on disconnect; accepted messages are journaled.",
+          NOTE_COMMON + " Known finding (pinned by a test): a SequenceReset may move the counter backwards. E9 base mode assumes hooks do not disconnect/reset "
+          "from inside the callback; arithmetic over multi-message histories (watermark values) is not decided.",
+          "DESIGN.md#c04")
